@@ -20,6 +20,8 @@ ASSUMPTIONS = ["relative tolerance 1e-12 for one conversion, 1e-11 for chains (p
 EXHAUSTIVE = {"quick": False, "thorough": False}
 NUT = ("kcals", "fat", "protein")
 SUFFIX = {"total": "", "per": " per month", "each": " each month"}
+# quantities also arise from a series: one month taken out of it (per-month form) or its sum / minimum over the months (total form)
+DERIVED = ("per<-get_month", "per<-index", "per<-get_first_month", "total<-sum", "total<-min")
 
 
 @st.composite
@@ -41,6 +43,13 @@ def apply_settings(c):
 def mk(units, form, c):
     from src.food_system.food import Food
     v = c["vals"]
+    if "<-" in form:
+        series = mk(units, "each", c)
+        how = form.split("<-")[1]
+        i = c["n"] - 1
+        with quiet():
+            return {"get_month": lambda: series.get_month(i), "index": lambda: series[i], "get_first_month": series.get_first_month,
+                    "sum": series.get_nutrients_sum, "min": series.get_min_all_months}[how]()
     lab = [u + SUFFIX[form] for u in units]
     if form == "each":
         n = c["n"]
@@ -66,19 +75,20 @@ def one_settings(ctx, c, pairs_stride=1, offset=0, history=()):
     triples = list(itertools.product(RU.KCAL_UNITS, RU.MASS_UNITS, RU.MASS_UNITS))
     default = (c["pop"], c["kcals"], c["fat"], c["protein"]) == (7.8e9, 2100.0, 47.0, 51.0)
     k = 0
-    for form in ("total", "per", "each"):
+    for form in ("total", "per", "each") + DERIVED:
+        derived = "<-" in form
         for src in triples:
             a = mk(src, form, c)
             va = arr(a)
             for dst in triples:
                 k += 1
-                if (k + offset) % pairs_stride:
+                if (k + offset) % (pairs_stride * (6 if derived else 1)):
                     continue
                 ctx.count()
                 case = dict(kind="conv", settings=s, vals=c["vals"], n=c["n"], form=form, src=list(src), dst=list(dst), history=hist)
                 with quiet():
                     b = a.in_units(*dst)
-                exp_lab = [u + SUFFIX[form] for u in dst]
+                exp_lab = [u + SUFFIX[form.split("<-")[0]] for u in dst]
                 got_lab = [b.kcals_units, b.fat_units, b.protein_units]
                 if got_lab != exp_lab or list(b.units) != exp_lab:
                     ctx.fail("conversion-changes-form-or-labels", "%s %r -> %r labelled %r" % (form, src, dst, got_lab), case)
@@ -94,6 +104,8 @@ def one_settings(ctx, c, pairs_stride=1, offset=0, history=()):
                                  "%s %s: %r x %.17g = %r expected, got %r" % (NUT[i], form, va[i].tolist(), f, (va[i] * f).tolist(), vb[i].tolist()), case)
                 with quiet():
                     back = b.in_units(*src)
+                if [back.kcals_units, back.fat_units, back.protein_units] != [u + SUFFIX[form.split("<-")[0]] for u in src]:
+                    ctx.fail("round-trip-changes-form-or-labels", "%s %r -> %r -> back labelled %r" % (form, src, dst, back.units), case)
                 r = max(rel(x, y) for x, y in zip(arr(back), va))
                 ctx.residual("round_trip_rel", r)
                 if r > 1e-11:
@@ -200,6 +212,11 @@ def replay(case, ctx):
     ctx.count()
     a = mk(case["src"], case["form"], c)
     b = a.in_units(*case["dst"])
+    base = case["form"].split("<-")[0]
+    for f_, names in ((a, case["src"]), (b, case["dst"])):
+        lab = [u + SUFFIX[base] for u in names]
+        if [f_.kcals_units, f_.fat_units, f_.protein_units] != lab or list(f_.units) != lab:
+            ctx.fail("conversion-changes-form-or-labels", "replay: %r" % (list(f_.units),), case)
     for i in range(3):
         f = RU.factor(case["src"][i], case["dst"][i], NUT[i], case["settings"])
         if rel(arr(b)[i], arr(a)[i] * f) > 1e-12:
